@@ -275,15 +275,25 @@ Definition feed_chan (kind now : Z) (c : chan) (cmds : list tgtT) : chan * list 
                                    (min3 (tg_c0 T)) (tg_t0 T) (min3 (tg_c1 T)) (tg_t1 T) in
                (c', snd acc ++ out)) cmds (c, []).
 
-(* a batch of ops at one instant, then the due task steps *)
-Definition run_ops (kind now : Z) (s : state) (ops : list op) : state * list tgtT * list hwcmd :=
-  let '(l', cmds) :=
+(* Light.gamma_correct with light_controller.brightness_factor = f4/4 (the "brightness" machine
+   variable: 0.25, 0.5, 0.75, 1.0): int(x * factor) per component; applied by _schedule_update to
+   the start and target colour of every command it sends (the comparison with _last_fade_target
+   is on the UNcorrected colours).  No colour-correction profile in the model. *)
+Definition gam (f4 : Z) (c : rgb) : rgb :=
+  let '(r, g, b) := c in (r * f4 / 4, g * f4 / 4, b * f4 / 4).
+Definition corr_T (f4 : Z) (T : tgtT) : tgtT :=
+  (gam f4 (tg_c0 T), tg_t0 T, gam f4 (tg_c1 T), tg_t1 T).
+
+(* a batch of ops at one instant (brightness factor f4/4), then the due task steps *)
+Definition run_ops (kind now f4 : Z) (s : state) (ops : list op) : state * list tgtT * list hwcmd :=
+  let '(l', cmds0) :=
     fold_left (fun acc o => let '(l1, c1) := lstep (fst acc) now o in (l1, snd acc ++ c1)) ops (ls s, []) in
+  let cmds := map (corr_T f4) cmds0 in
   let '(c1, h1) := if kind_has_chan kind then feed_chan kind now (ch s) cmds else (ch s, []) in
   let '(c2, h2) := if kind_has_chan kind then chan_run (kind_maxf kind) (kind_interval kind) now c1 else (c1, []) in
   (mkS l' c2, cmds, h1 ++ h2).
 
-Record tick := mkTick { now_ : Z; fired : list Z; ops_ : list op }.
+Record tick := mkTick { now_ : Z; fac_ : Z; fired : list Z; ops_ : list op }.
 
 Definition enc_cmd (kind : Z) (T : tgtT) : list Z :=
   0 :: chan_map kind (tg_c0 T) ++ [tg_t0 T] ++ chan_map kind (tg_c1 T) ++ [tg_t1 T].
@@ -300,9 +310,9 @@ Definition bad_fires (l : lstate) (now : Z) (fs : list Z) : Z :=
 Definition tick_step (kind : Z) (s : state) (tk : tick) : state * list (list Z) :=
   let now := now_ tk in
   let bad := bad_fires (ls s) now (fired tk) in
-  let '(s1, cm1, hw1) := run_ops kind now s (map OFire (fired tk)) in
+  let '(s1, cm1, hw1) := run_ops kind now (fac_ tk) s (map OFire (fired tk)) in
   let pre := col (stack (ls s1)) now in
-  let '(s2, cm2, hw2) := run_ops kind now s1 (ops_ tk) in
+  let '(s2, cm2, hw2) := run_ops kind now (fac_ tk) s1 (ops_ tk) in
   let post := col (stack (ls s2)) now in
   (s2, (enc_rgb pre ++ enc_rgb post ++ [bad])
          :: map (enc_cmd kind) (cm1 ++ cm2) ++ map enc_hw (hw1 ++ hw2)).
